@@ -77,6 +77,10 @@ package core
 //@ callreq send input.success: (a1 == DeadlineExempt) == !canExpire
 //@ callreq send input.success: a1 == DeadlineExpired ==> canExpire
 //@ callreq send input.success: a1 == DeadlineExempt || a1 == DeadlineExpired || a1 == DeadlineScheduled
+// the expired/scheduled verdict is based on a clock reading taken after the registration was received
+//@ ghost nowAtRecv int
+//@ ghostcall deadlineFunc: nowAtRecv = ncalls(d.clock.Now)
+//@ callreq send input.success: canExpire ==> ncalls(d.clock.Now) == nowAtRecv + 1
 //@ loop 1 invariant forallk(x, duties, res(1, deadlineFunc(x)) ==> !res(0, deadlineFunc(x)).Before(currDeadline))
 //@ loop 1 invariant forallk(x, duties, res(1, deadlineFunc(x)))
 //@ loop 1 invariant ncalls(delete) == ncalls(currTimer.Chan)
